@@ -354,5 +354,5 @@ func (x *exec) histC16() {
 			return
 		}
 	}
-	x.res.Nontrivial = len(keysSeen) >= 2 && x.cache.resets+x.res.Stats.Probes["cache_resets"] >= 0 && len(x.s.Steps) >= 3
+	x.res.Nontrivial = len(keysSeen) >= 2 && len(x.s.Steps) >= 3
 }
